@@ -7,6 +7,24 @@ import io
 from . import datasets as D
 
 FIELDS = ['group', 'quality', 'note']
+# stage 6 (seeded change C10-m12): field names NEXT TO the one excluded name -- save_metadata(f, ..) writes cluster_<f>.tsv and
+# _load_metadata skips exactly the stem `cluster_info`: names with `info` as a prefix / suffix / in another case, a proper
+# prefix of it, the excluded stem itself as a field name, and a name that extends another field's name
+NEAR_FIELDS = ['info_score', 'information', 'info2', 'info_', 'inf', 'Info', 'INFO', 'myinfo', 'cluster_info', 'group2', 'groupinfo']
+# ... and foreign files whose stem extends / is extended by / differs in one character from `cluster_info` (each with a
+# field of its own: the reading keeps the fields of simultaneously visible files disjoint)
+NEAR_FOREIGN = {'cluster_info_backup.tsv': ['bk_depth'], 'cluster_information_extra.csv': ['bits'],
+                'cluster_info.old.tsv': ['oldv', 'oldw'], 'cluster_inf.csv': ['infv'], 'xcluster_info.tsv': ['xv'],
+                'cluster_info2.csv': ['i2v'], 'cluster_info.tsv.csv': ['tv'], 'info.tsv': ['iv'], 'Cluster_info.csv': ['cv'],
+                'cluster_infos.tsv': ['sv']}
+# stage 6 (seeded change C10-m13): dtypes spike_clusters.npy may have on disk (the loader casts whatever is there to int32;
+# spike_templates.npy must be one of uint16 / uint32 / int32 / int64 and is byte-copied when there is no cluster file) and
+# cluster ids at and beyond the limits of the narrow ones
+TEMPLATE_DTYPES = ['uint16', 'uint32', 'int32', 'int64']
+CLUSTER_FILE_DTYPES = ['uint8', 'int8', 'int16', 'uint16', '>u2', '>i4', 'uint32', 'int64', 'uint64']
+NARROW = {'uint8': (0, 255), 'int8': (-128, 127), 'int16': (-32768, 32767), 'uint16': (0, 65535), '>u2': (0, 65535),
+          '>i2': (-32768, 32767)}
+EDGE_IDS = [127, 128, 255, 256, 300, 32767, 32768, 65535, 65536, 65537, 70000, 131071]
 WORDS = ['good', 'mua', 'bad', 'x y', 'a,b', 'q"z', 'Good ', 'unsorted', 'eE', 'True', 'd.5', 'e5', 'a_1']
 
 
@@ -57,7 +75,8 @@ def make_dataset(rng, **o):
     ds = D.render(sem, rng, names=names, label=o.get('label', rng.choice(['', 'probe00'])),
                   write_clusters=o.get('write_clusters', rng.random() < 0.5),
                   id_dtype=o.get('id_dtype', rng.choice(['uint32', 'int32', 'int64'])),
-                  time_dtype=rng.choice(['uint64', 'int64']), alf_samples=True)
+                  time_dtype=rng.choice(['uint64', 'int64']), alf_samples=True,
+                  **({'clu_dtype': o['clu_dtype']} if o.get('clu_dtype') else {}))
     ds['sem'] = {k: sem[k] for k in ('n_channels', 'n_channels_dat', 'n_templates', 'n_samples_wf', 'n_spikes',
                                      'channel_map', 'rate', 'spike_samples', 'spike_templates', 'spike_clusters')}
     if o.get('n_closest'):
@@ -115,6 +134,9 @@ def rand_clusters(rng, ns, kind=None):
         return [rng.choice([0, 5]) for _ in range(ns)]
     if kind == 'big':
         return [rng.choice([0, 1, 300, 70000]) for _ in range(ns)]
+    if kind == 'edge':      # ids around the limits of int8 / uint8 / int16 / uint16 (stage 6)
+        pick = rng.sample(EDGE_IDS, rng.randint(1, 3)) + [rng.randint(0, 4)]
+        return [rng.choice(pick) for _ in range(ns)]
     return [rng.randint(0, 6)] * ns
 
 
